@@ -105,7 +105,7 @@ def gen_construct(r: random.Random, depth: int = 0):
         return k, x, t, "primary"
     if k == "search":
         pre = r.choice(["", "r", "g", "@foo", "p", "f", "rp"])
-        body = r.choice([".*", "[Ff]+i*LE", "#x", "a b", "\\`q", "it\\`s.*", "\\`quoted\\`/*.py"])
+        body = r.choice([".*", "[Ff]+i*LE", "#x", "a b", "\\`q", "it\\`s.*", "\\`quoted\\`/*.py", "a\\\\", "C:\\\\tmp\\\\", "x\\\\\\`\\\\", "\\d+\\\\"])
         tok = f"{pre}`{body}`"
         return k, tok, f"__xonsh__.pathsearch({pystr(tok)})", "primary"
     if k == "pathlit" and r.random() < 0.3:
@@ -239,7 +239,7 @@ def gen_with_macro(r: random.Random):
     """(source statement text ending in newline, ctx expr text, expected captured string)"""
     import textwrap
 
-    ctx = r.choice(["ctx", "Block()", "a.b", "m[0]"])
+    ctx = r.choice(["ctx", "Block()", "a.b", "m[0]", "x[1:2]", 'open("a:b")', "f(lambda: 0)", "{1: 2}", "g(k=d[1:])"])
     asv = r.choice(["", "", " as v"])
     if r.random() < 0.25:
         body = r.choice(["x = 1", "not python $", "ls -l", "a; b", "s = \'\'\'a\nb\nc\nd\'\'\' ; v = 1", "t = \'\'\'a\n  b\'\'\'"])
